@@ -7,7 +7,9 @@ symbolic variable names and values, prepend/append are short lists of distinct p
   associativity  : (a.wd(b)).wd(c) == a.wd(b.wd(c))  key-wise, three symbolic layers
   identity       : x.wd(empty) == x == empty.wd(x)
   lists          : append == defaults.append ++ self.append ; prepend == self.prepend ++ defaults.prepend
-Where the layers are applied (parser, CLI, executor) is outside."""
+  command line   : what `commands::test::Args::run` hands the executor = flags over the test case's inline configuration (bin crate MIR)
+  document       : what `StatefulExecutor::execute_all` hands the runner = test case over the document's defaults (lib MIR)
+The parser's format defaults are outside (C07 claims the Cram ones)."""
 import random
 
 import z3
@@ -343,6 +345,271 @@ def replay_tcc(rep, h, res, op, layers_of):
             rep.mismatches.append("%s: solver witness did not reproduce natively: %s → %s" % (h.name, js, nv))
 
 
+# ---- where the command-line layer is applied: commands::test::Args::run (bin crate) ---------------------------------------------
+
+def h_cli_layer(prog):
+    """`scrut test` with symbolic --combine-output / --no-combine-output / --keep-output-crlf / --no-keep-output-crlf / --timeout-seconds over a
+    document whose only test case has a fully symbolic inline configuration: what reaches the executor"""
+    from props import c20
+    from mir_exec import ENUMS, SymEnum as SE, deep_clone as dc
+
+    class CliModels(c20.RunModels):
+        def __init__(self):
+            super().__init__(prog)
+            ins = lambda pat, fn: self.table.insert(0, (__import__("re").compile("^(?:%s)$" % pat), fn))
+
+            def execute_all(c, m, a):
+                from mir_models import as_items
+                tests = as_items(a[1])
+                c.notes["seen_configs"] = [dc(field_of(deref(t), "config")) for t in tests]
+                c.notes.setdefault("executed_titles", []).append([c20.title_of(t) for t in tests])
+                return c.notes["scripts"][0](c, tests)
+            ins(r"<dyn Executor as Executor>::execute_all", execute_all)
+
+            def cb_config(c, m, a):
+                c.notes["seen_document_config"] = dc(deref(a[1]))
+                return Agg("ContextBuilder", None, [])
+            ins(r"scrut::executors::context::ContextBuilder::config", cb_config)
+
+    def setup(ctx):
+        args = c20.mk_setup(0, 0, [c20.Doc(0, 1, 0, 0, "ok", "C")])(ctx)
+        tcc = sym_tcc(ctx, "t", 1)
+        doc = ctx.notes["documents"][0]
+        tc = field_of(doc, "testcases").items[0]
+        tc.fields[STRUCTS["TestCase"].index("config")] = tcc
+        dcfg = field_of(doc, "config")
+        doc_total = sym_opt(ctx, "doc_total", sym_dur(ctx, "doc_total_v"))
+        dcfg.fields[STRUCTS["DocumentConfig"].index("total_timeout")] = doc_total
+        ctx.notes["layers"] = {"test": tcc, "doc_total": doc_total}
+        a = deref(args[0])
+        order = c20.struct_order(e2.REPO + "/src/bin/commands/test.rs", "Args")
+        g = a.fields[order.index("global")]
+        gorder = [n for n, _t in c20.struct_order(e2.REPO + "/src/bin/commands/root.rs", "GlobalSharedParameters", typed=True)]
+        flags = {}
+        for name in ("combine_output", "no_combine_output", "keep_output_crlf", "no_keep_output_crlf"):
+            flags[name] = ctx.sym_bool("cli_" + name)
+            g.fields[gorder.index(name)] = flags[name]
+        # (a flag and its negation may both be given — the command line accepts that; then either value is "the command line's")
+        secs = ctx.sym_int("cli_timeout_seconds", "u64")
+        ctx.add(z3.ULT(secs.z(), z3.BitVecVal(10 ** 6, 64)))
+        flags["timeout_seconds"] = sym_opt(ctx, "cli_timeout", secs)
+        g.fields[gorder.index("timeout_seconds")] = flags["timeout_seconds"]
+        ctx.notes["cli"] = flags
+        return args
+
+    def post(ctx, args, kind, value):
+        if kind != "return":
+            return False
+        seen = ctx.notes.get("seen_configs")
+        if not seen or len(seen) != 1:
+            return False
+        got, t, cli = seen[0], ctx.notes["layers"]["test"], ctx.notes["cli"]
+        from mir_exec import mk_bool
+        osc = ENUMS["OutputStreamControl"]
+        conds = []
+        no_c, c_ = cli["no_combine_output"].z(), cli["combine_output"].z()
+        idx = lambda name: z3.BitVecVal(osc.index(name), 64)
+        cli_os = [SymOpt(mk_bool(z3.Or(no_c, c_)), SE("OutputStreamControl", mk_int(z3.If(no_c, idx("Stdout"), idx("Combined")), "isize"))),
+                  SymOpt(mk_bool(z3.Or(no_c, c_)), SE("OutputStreamControl", mk_int(z3.If(c_, idx("Combined"), idx("Stdout")), "isize")))]
+        no_k, k_ = cli["no_keep_output_crlf"].z(), cli["keep_output_crlf"].z()
+        from mir_exec import SBool as SB
+        cli_crlf = [SymOpt(mk_bool(z3.Or(no_k, k_)), SB(z3.Not(no_k))), SymOpt(mk_bool(z3.Or(no_k, k_)), SB(k_))]
+        for key in SCALARS:
+            want = field_of(t, key)
+            if key in ("output_stream", "keep_crlf"):
+                alts = [opt_same(ctx, field_of(got, key), spec_or(ctx, c, want)) for c in (cli_os if key == "output_stream" else cli_crlf)]
+                conds.append(z_or(alts))
+            else:
+                conds.append(opt_same(ctx, field_of(got, key), want))
+        # the test case's own variables survive (the environment of init_test_file is empty in this harness)
+        probe = deref(field_of(t, "environment").entries[0][0]).chars[0]
+        fr, vr = env_lookup(ctx, field_of(got, "environment"), probe)
+        fa, va = env_lookup(ctx, field_of(t, "environment"), probe)
+        conds.append(z_and([bool_iff(fr, fa), z3.simplify(vr == va)]))
+        # document level: --timeout-seconds over the document's total_timeout
+        dgot = ctx.notes.get("seen_document_config")
+        if dgot is None:
+            return False
+        ts = cli["timeout_seconds"]
+        want_total = spec_or(ctx, SymOpt(ts.present, Agg("Duration", None, [mk_int(z3.BV2Int(ts.fields[0].z()) * 10 ** 9, "nat")])), ctx.notes["layers"]["doc_total"])
+        conds.append(opt_same(ctx, field_of(dgot, "total_timeout"), want_total))
+        return z_and(conds)
+    h = e2.Harness("cli_layer_in_test_command", c20.drive, [("1 document, 1 test case, symbolic inline configuration and flags", setup)], post, native=None, judge=None,
+                   describe="what reaches the executor: output_stream / keep_crlf from the command-line flag if given else from the test case; every other "
+                            "key and the test case's variables unchanged; total_timeout = --timeout-seconds if given else the document's",
+                   bound="all inline configurations (every key set / unset, any value; 1 variable), all admissible flag combinations, any --timeout-seconds < 10^6")
+    h.models_cls = CliModels
+    return h
+
+
+# ---- where the document's defaults are applied: StatefulExecutor::execute_all ------------------------------------------------------
+
+def h_exec_layer(prog):
+    """one test case with a fully symbolic inline configuration in a document with fully symbolic `defaults`: what the runner is given"""
+    from props import execmodel as X
+
+    def setup(ctx):
+        t = sym_tcc(ctx, "t", 1)
+        d = sym_tcc(ctx, "d", 1)
+        for cfg in (t, d):
+            # `wait` makes the executor sleep before the run; it is not part of this claim
+            cfg.fields[STRUCTS["TestCaseConfig"].index("wait")] = Agg("Option", "None", [])
+        ctx.notes["layers"] = (t, d)
+        ctx.notes["script"] = [Agg("ExitStatus", "Code", [mk_int(0, "i32")])]
+        ctx.notes["kinds"] = ["Code"]
+        # the skip code must not end the run before the runner is observed: any code but the effective one
+        tc = mk_struct("TestCase", title=StringBuf([]), shell_expression=StringBuf([SInt(ord("x"), "char")]), expectations=VecBuf([]),
+                       exit_code=Agg("Option", "None", []), line_number=mk_int(1, "usize"), config=t)
+        doc = mk_struct("DocumentConfig", append=VecBuf([]), defaults=d, prepend=VecBuf([]), shell=Agg("Option", "None", []),
+                        total_timeout=Agg("Option", "None", []))
+        from mir_exec import Opaque
+        cx = mk_struct("Context", work_directory=Opaque("work"), temp_directory=Opaque("tmp"), file=Opaque("file"), config=doc)
+        return [[tc], cx]
+
+    def drive(ctx, args):
+        """StatefulExecutor::execute_all on one test case; the runner stub records the configuration it is given"""
+        return X.execute_all(ctx, args[0], args[1])
+
+    def post(ctx, args, kind, value):
+        if kind != "return":
+            return False
+        runs = ctx.notes.get("runs", [])
+        if len(runs) != 1:
+            return False
+        got = runs[0]["cfg"]
+        t, d = ctx.notes["layers"]
+        conds = []
+        for key in ("detached", "keep_crlf", "output_stream", "skip_document_code", "strip_ansi_escaping"):
+            conds.append(opt_same(ctx, field_of(got, key), spec_or(ctx, field_of(t, key), field_of(d, key))))
+        probe = ctx.notes["probe"]
+        conds.append(env_spec(ctx, field_of(got, "environment"), field_of(t, "environment"), field_of(d, "environment"), probe))
+        return z_and(conds)
+
+    def setup2(ctx):
+        args = setup(ctx)
+        probe = ctx.sym_char("probe", 1)
+        ctx.add(z3.Or([probe.z() == ord(x) for x in "ABC"]))
+        ctx.notes["probe"] = probe
+        return args
+    h = e2.Harness("document_defaults_in_executor", drive, [("1 test case, symbolic inline configuration and document defaults", setup2)], post, native=None, judge=None,
+                   describe="the configuration the runner is given: detached / keep_crlf / output_stream / skip_document_code / strip_ansi_escaping and every "
+                            "variable from the test case if set there, else from the document's defaults",
+                   bound="all inline configurations × all document defaults (every key set / unset, any value; 1 variable each over {A,B,C}); wait unset; "
+                         "timeout is C14's subject")
+
+    def models():
+        m = X.ExecModels(prog)
+        X.install_clone_override(prog, m)
+        return m
+    h.models_cls = models
+    return h
+
+
+def cli_layer_native(inline, flags):
+    """real `scrut test -r json` on a failing one-test document with the inline configuration and flags of a witness → the configuration
+    scrut reports for the test case, and the one the statement prescribes"""
+    import json
+    import os
+    import shutil
+    import subprocess
+    import tempfile
+    from common import SCRUT_BIN
+    parts = []
+    if inline.get("keep_crlf") is not None:
+        parts.append("keep_crlf: %s" % ("true" if inline["keep_crlf"] else "false"))
+    if inline.get("output_stream") is not None:
+        parts.append("output_stream: %s" % inline["output_stream"].lower())
+    if inline.get("skip_document_code") is not None and 0 <= inline["skip_document_code"] < 256:
+        parts.append("skip_document_code: %d" % inline["skip_document_code"])
+    if inline.get("strip_ansi_escaping") is not None:
+        parts.append("strip_ansi_escaping: %s" % ("true" if inline["strip_ansi_escaping"] else "false"))
+    tmp = tempfile.mkdtemp(prefix="verif-c16-")
+    try:
+        with open(os.path.join(tmp, "d.md"), "w") as fh:
+            fh.write("probe\n\n```scrut%s\n$ echo hello\nnope\n```\n" % (" {%s}" % ", ".join(parts) if parts else ""))
+        argv = [SCRUT_BIN, "test", "-r", "json", "d.md"]
+        for name in ("combine_output", "no_combine_output", "keep_output_crlf", "no_keep_output_crlf"):
+            if flags.get(name):
+                argv.append("--" + name.replace("_", "-"))
+        r = subprocess.run(argv, cwd=tmp, stdout=subprocess.PIPE, stderr=subprocess.PIPE, text=True, timeout=60)
+        try:
+            cfg = json.loads(r.stdout)[0]["testcase"]["config"]
+        except Exception:
+            return None, None, {"argv": argv[1:], "exit": r.returncode, "stdout": r.stdout[-300:], "stderr": r.stderr[-300:]}
+    finally:
+        shutil.rmtree(tmp, ignore_errors=True)
+    want = {}
+    os_cli = [x for x, f in (("stdout", "no_combine_output"), ("combined", "combine_output")) if flags.get(f)]
+    want["output_stream"] = os_cli or [(inline.get("output_stream") or "Stdout").lower()]
+    crlf_cli = [x for x, f in ((False, "no_keep_output_crlf"), (True, "keep_output_crlf")) if flags.get(f)]
+    want["keep_crlf"] = crlf_cli or [inline["keep_crlf"] if inline.get("keep_crlf") is not None else False]
+    got = {"output_stream": cfg.get("output_stream"), "keep_crlf": cfg.get("keep_crlf", False)}
+    return got, want, {"argv": argv[1:], "config": cfg}
+
+
+def run_cli_layer(rep, tier):
+    from common import build_scrut_bin
+    from props import c20
+    prog, _s = c20.load_bin_program()
+    build_scrut_bin()
+    h = h_cli_layer(prog)
+    res = e2.run_with_raw(prog, h, max_witnesses=6)
+    for model, r in res.raw_witnesses[:6]:
+        inline = tcc_to_json(r.ctx.notes["layers"]["test"], model)
+        flags = {k: bool(z3.is_true(model.eval(v.z(), model_completion=True))) for k, v in r.ctx.notes["cli"].items() if k != "timeout_seconds"}
+        got, want, obs = cli_layer_native(inline, flags)
+        what = "inline configuration %s with flags %s" % ({k: v for k, v in inline.items() if v not in (None, [])}, [k for k, v in flags.items() if v])
+        if got is not None and any(got[k] not in want[k] for k in got):
+            rep.violation("cli-layer:" + "+".join(k for k in got if got[k] not in want[k]),
+                          "`scrut test` on a test case with %s runs it with %s, the command line / test case prescribe %s" % (what, got, want),
+                          {"kind": "scrut-test-run", "observation": obs, "harness": h.name})
+        else:
+            rep.violation("cli-layer:mir-only", "commands::test::Args::run hands the executor a configuration that is not `command line over test case` for %s "
+                          "(decided on its MIR; the end-to-end run shows output_stream / keep_crlf as prescribed: the difference is in another key, "
+                          "the variables or total_timeout)" % what, {"kind": "mir-only", "inline": inline, "flags": flags, "observation": obs, "harness": h.name})
+    e2.record(rep, h, res, status=("violated" if res.witnesses else ("undecided" if res.unsupported else "holds")))
+    for u in res.unsupported[:3]:
+        rep.undecided.append(u)
+    # the observation channel itself: a few plain runs must show what the statement prescribes
+    bad = 0
+    rows = [({}, {}), ({"output_stream": "Stderr"}, {"combine_output": True}), ({"keep_crlf": True}, {"no_keep_output_crlf": True}),
+            ({"output_stream": "Combined", "keep_crlf": True}, {}), ({}, {"no_combine_output": True, "keep_output_crlf": True})]
+    for inline, flags in rows:
+        got, want, obs = cli_layer_native(inline, flags)
+        if got is None or any(got[k] not in want[k] for k in got):
+            bad += 1
+            rep.violation("cli-layer:native", "`scrut test` with inline %s and flags %s runs the test case with %s, prescribed %s" % (inline, flags, got, want),
+                          {"kind": "scrut-test-run", "observation": obs, "harness": "end-to-end sample"})
+    rep.subclaims[-1]["concrete_validation"] = {"inputs": len(rows), "mismatches": bad, "function": "real `scrut test -r json` runs; configuration read from the reported test case"}
+
+
+def run_exec_layer(rep, prog, nat):
+    h = h_exec_layer(prog)
+    res = e2.run_with_raw(prog, h, max_witnesses=6)
+    keys = ("detached", "keep_crlf", "output_stream", "skip_document_code", "strip_ansi_escaping")
+    for model, r in res.raw_witnesses[:6]:
+        t, d = (tcc_to_json(x, model) for x in r.ctx.notes["layers"])
+        w = {"tests": [{"config": t}], "defaults": d, "script": [{"status": "Code", "code": 0}], "total_timeout": None}
+        nk, nv = nat.call("execute_all", [w])
+        got = nv["runs"][0]["config"] if nk == "return" and nv.get("runs") else None
+        if got is None:
+            rep.mismatches.append("%s: native run of the witness gave %s" % (h.name, str(nv)[:200]))
+            continue
+        bad = [k for k in keys if got.get(k) != (t.get(k) if t.get(k) is not None else d.get(k))]
+        env_want = dict((k, v) for k, v in d["environment"])
+        env_want.update(dict((k, v) for k, v in t["environment"]))
+        env_got = dict((k, v) for k, v in got["environment"] if k != "SCRUT_TEST")
+        if env_got != env_want:
+            bad.append("environment")
+        if bad:
+            rep.violation("executor-layer:" + "+".join(bad), "a test case with inline configuration %s in a document with defaults %s is run with %s: "
+                          "key(s) %s do not follow `test case, else document defaults`" % (t, d, got, bad),
+                          {"kind": "eval", "fn": "execute_all", "args": [w], "native": [nk, nv], "harness": h.name})
+        else:
+            rep.mismatches.append("%s: solver witness did not reproduce natively: %s / %s → %s" % (h.name, t, d, got))
+    e2.record(rep, h, res)
+
+
 def run(pid, tier):
     global NAT
     rep = Report(pid, tier, "other")
@@ -422,7 +689,11 @@ def run(pid, tier):
             else:
                 rep.mismatches.append("doc_lists_and_scalars: solver witness did not reproduce natively (or is the TestCaseConfig finding): %s" % js)
     e2.record(rep, h, res)
+    # where the document's defaults are applied: the executor
+    run_exec_layer(rep, prog, NAT)
     NAT.close()
+    # where the command-line layer is applied: the test command (bin crate)
+    run_cli_layer(rep, tier)
     # a mismatch that merely repeats an already confirmed TestCaseConfig violation inside DocumentConfig.defaults is not an encoding problem
     if rep.violations or rep.known_hits:
         rep.mismatches = [m for m in rep.mismatches if "TestCaseConfig finding" not in m]
@@ -431,9 +702,13 @@ def run(pid, tier):
         "explanation": "SMT decision (z3) over symbolic execution of the MIR of the merge functions with fully symbolic "
                        "configuration layers (symbolic Option presence, symbolic environment names/values); the 4-layer "
                        "statement follows from the pairwise law + associativity + identity, each decided here. "
-                       "Where the layers are applied (parser, CLI flags, executor) is not claimed.",
+                       "Where the command-line layer is applied is decided on the MIR of commands::test::Args::run (what reaches the "
+                       "executor = flags over the test case's inline configuration; --timeout-seconds over the document's total_timeout), "
+                       "replayed through the real binary; where the document's defaults are applied on the MIR of StatefulExecutor::execute_all "
+                       "(what the runner is given). The parser's format defaults are C06/C07's subject.",
         "functions_encoded": ["TestCaseConfig::with_defaults_from", "TestCaseConfig::with_overrides_from", "TestCaseConfig::empty",
-                              "<TestCaseConfig as Default>::default", "DocumentConfig::with_defaults_from"],
+                              "<TestCaseConfig as Default>::default", "DocumentConfig::with_defaults_from", "scrut(bin)::commands::test::Args::run",
+                              "Args::to_testcase_config / to_document_config", "GlobalSharedParameters::to_testcase_config / to_document_config"],
         "evaluations": tot_paths, "distinct_nontrivial": max(tot_paths, 2),
         "rule": "one case = one feasible path of the MIR for one pair/triple of symbolic layers (paths differ by environment-key equalities)",
         "samples": [s for sc in rep.subclaims for s in sc.get("samples", [])][:4] or ["symbolic layers: see subclaims"],
